@@ -27,7 +27,8 @@ def validate(run, sc, trace_records, label="real"):
         key = f"recorded step {r['obj']} a={r['a']} b={r['b']} from {r['repr']}: {r['act']} {r['arg']}"
         # the emitted path whose prefix produced this record: re-running it re-creates the record
         prefix = [tuple(x) for x in r.get("prefix", [])]
-        path = next((p[:len(prefix)] for _, p in g["paths"] if [(s["act"], s["arg"]) for s in p[:len(prefix)]] == prefix), [])
+        path = [g["nodes"][tuple(prefix[:k])] for k in range(1, len(prefix) + 1)] if all(
+            tuple(prefix[:k]) in g["nodes"] for k in range(1, len(prefix) + 1)) else []
         if len(run.violations) >= 300 and key not in run.known:
             continue
         run.violation(key, f"no action of Rebase.tla allows the recorded real step {json.dumps(r)[:400]}",
